@@ -677,13 +677,41 @@ impl WithT for SndRun<'_> {
                     sig.add(2);
                 }
                 SOp::JackRemap(j, a, q) => {
-                    let r = g!(what, snd.jack_remap(*j as u32, *a, *q));
+                    let nj = *jacks as u32;
+                    // an existing jack most of the time (even jacks of the reference device advertise REMAP)
+                    let jid = if nj > 0 && *j < 200 { *j as u32 % nj } else { *j as u32 };
+                    let inj_before = dev.with(|d| d.h.inject.len());
+                    let r = g!(what, snd.jack_remap(jid, *a, *q));
                     chk(&dev)?;
-                    // jacks in the reference device do not advertise the REMAP feature: refused locally
-                    if clean && r.is_ok() {
-                        return Err(format!("{}: returned Ok although no jack supports remapping", what));
+                    let injected = dev.with(|d| d.h.inject.len()) != inj_before;
+                    let (at, setup_failed) = scan_setup(ctl0, &dev, &mut set_up_done).map_err(|m| format!("{}: {}", what, m))?;
+                    let l: Vec<SndReq> = dev.with(|d| d.h.ctl_log[at..].to_vec());
+                    let ans: Vec<u32> = dev.with(|d| d.h.ctl_answers[at..].to_vec());
+                    // what the driver can know about the jacks: the answer to its last jack query
+                    let jacks_known = dev.with(|d| d.h.ctl_log[..at].iter().zip(d.h.ctl_answers.iter()).filter(|(r, _)| matches!(r, SndReq::JackInfo { .. })).last().map(|(_, a)| *a == 0x8000).unwrap_or(false));
+                    if setup_failed {
+                        if r.is_ok() || !l.is_empty() {
+                            return Err(format!("{}: the stream query was refused but the call returned {:?} / continued with {:?}", what, r, l));
+                        }
+                    } else if jid >= nj || (jacks_known && jid % 2 == 1) {
+                        // no such jack, or a jack that does not advertise VIRTIO_SND_JACK_F_REMAP
+                        if r.is_ok() {
+                            return Err(format!("{}: returned Ok although jack {} of {} {}", what, jid, nj, if jid >= nj { "does not exist" } else { "does not support remapping" }));
+                        }
+                    } else if jacks_known {
+                        let want = vec![SndReq::JackRemap { jack: jid, association: *a, sequence: *q }];
+                        if l != want {
+                            return Err(format!("{}: jack {} advertises REMAP: device saw {:?}, expected {:?} (call returned {:?})", what, jid, l, want, r));
+                        }
+                        if (ans[0] == 0x8000) != r.is_ok() {
+                            return Err(format!("{}: device answered {:#x} but the call returned {:?}", what, ans[0], r));
+                        }
+                        st.class("sound_jack_remap_emitted");
                     }
-                    let _ = scan_setup(ctl0, &dev, &mut set_up_done).map_err(|m| format!("{}: {}", what, m))?;
+                    if injected {
+                        error_mid = true;
+                    }
+                    sig.add(9);
                 }
                 SOp::Query(k) => {
                     if ns == 0 {
@@ -718,6 +746,9 @@ impl WithT for SndRun<'_> {
                     let inj_before = dev.with(|d| d.h.inject.len());
                     let period = params[s as usize];
                     let flen = match period {
+                        // one value in eight: a whole number of periods (0..=40, so exactly the queue
+                        // size and its neighbours occur), otherwise any length up to 40 periods
+                        Some(p) if *len % 8 == 7 => p as usize * ((*len as usize / 8) % 41),
                         Some(p) => (*len as usize) % (p as usize * 40 + 1),
                         None => (*len as usize) % 100,
                     };
@@ -1130,7 +1161,7 @@ pub fn check(c: &CCase, st: &mut Stats) -> Result<(), String> {
             let ss: Vec<SndStream> = (0..*streams)
                 .map(|i| SndStream { features: i as u32 & 3, formats: 0x1fe0 ^ (i as u64) << 3, rates: 0xc6 | (i as u64) << 9, direction: i & 1, ch_min: 1, ch_max: 2 + i, params_set: false, period: 0 })
                 .collect();
-            let js = (0..*jacks).map(|i| (i as u32 + 7, 0u32, 0x1234 + i as u32, 0x55u32, i & 1)).collect();
+            let js = (0..*jacks).map(|i| (i as u32 + 7, (i as u32 + 1) & 1, 0x1234 + i as u32, 0x55u32, i & 1)).collect();
             let cs = (0..*chmaps).map(|i| (i as u32 + 3, i & 1, 2u8, [3u8; 18])).collect();
             let dev = Shared::install(SimDev::new(4, c.policy, SoundDev::new(ss, js, cs)));
             let r = with_transport(c.kind, 25, 12, SndRun { c, dev: dev.clone(), st: &mut *st })?;
@@ -1196,7 +1227,7 @@ fn sop() -> impl Strategy<Value = SOp> {
         5 => (any::<u8>(), any::<u16>(), any::<u8>()).prop_map(|(stream, len, lag)| SOp::Xfer { stream, len, lag }),
         6 => any::<u8>().prop_map(|stream| SOp::XferNb { stream }),
         5 => any::<u16>().prop_map(|pick| SOp::XferOk { pick }),
-        1 => (any::<u8>(), any::<u32>(), any::<u32>()).prop_map(|(a, b, c)| SOp::JackRemap(a, b, c)),
+        2 => (any::<u8>(), any::<u32>(), any::<u32>()).prop_map(|(a, b, c)| SOp::JackRemap(a, b, c)),
         1 => any::<u8>().prop_map(SOp::Query),
         1 => (0u8..6, prop_oneof![Just(0x8001u32), Just(0x8002), Just(0x8003), Just(0u32), any::<u32>()]).prop_map(|(n, s)| SOp::Inject(n, s)),
     ]
